@@ -459,3 +459,37 @@ def rule_sort_guard(ctx, prop, must_block=("Skip", "NotInRange")):
                                                 else "the members were never asked"), f.loc(), cfg)
         rep.floor("paths reaching the require sort", n, 1, cfg)
     return rep
+
+
+def rule_toggle_chain(ctx, prop):
+    """the ignore start / end state is one thread through a sequence: every later check_toggle_formatting of a function
+    starts from the state the earlier ones left"""
+    rep = Report(prop, "R-SKIP(f)", "in a function that walks a sequence (statements then the last statement, table fields), every "
+                                    "check_toggle_formatting call after the first is applied to the Context the earlier calls "
+                                    "produced - never to the function's own, untoggled parameter")
+    for cfg, prog in ctx.programs.items():
+        n = 0
+        for f in prog.fns("stylua_lib"):
+            if f.kind == "Closure":
+                continue
+            sites = [(b, t) for b, t in f.calls() if callee(t) == TOGGLE]
+            if len(sites) < 2:
+                continue
+            dom = f.dominators()
+            for b, t in sites:
+                earlier = [b2 for b2, t2 in sites if b2 != b and (b2 in dom.get(b, ()) or b in f.reach_from(b2))]
+                # calls that can run before this one
+                before = [b2 for b2 in earlier if b in f.reach_from(b2) and not (b2 in f.reach_from(b) and b not in dom.get(b2, ()) and False)]
+                if not before:
+                    continue
+                n += 1
+                pr = provenance(f, t["args"][0])
+                threaded = any(r[0] == "call" and r[1] == TOGGLE for r in pr)
+                rep.inst(f"{f.key} check_toggle_formatting continues the running state", {"at": f.loc(t["sp"])}, cfg, ok=threaded)
+                if not threaded:
+                    rep.violation(f"{f.key} toggle-state-restarted",
+                                  f"{f.path} applies check_toggle_formatting to a Context that does not come from the earlier "
+                                  f"check_toggle_formatting calls of the same walk (its own parameter): an `-- stylua: ignore start` "
+                                  f"region still open at that point is forgotten, and the element is reformatted", f.loc(t["sp"]), cfg)
+        rep.floor("later check_toggle_formatting calls", n, 1, cfg)
+    return rep
